@@ -91,6 +91,7 @@ fn describe(sc: &Scenario) -> String {
 }
 
 fn account(l: &mut Local, k: u64, rs: u64, sc: &Scenario, bins: &Bins, root: &PathBuf, crlf: bool, enumerated: bool) -> (bool, cli::Outcome) {
+    batch::heartbeat();
     let dir = my_dir(root);
     let o = match std::panic::catch_unwind(std::panic::AssertUnwindSafe(|| cli::run(sc, bins, &dir, crlf))) {
         Ok(o) => o,
